@@ -66,7 +66,7 @@ TRUSTED = ['z3 quantifier instantiation']
 def tasks(tier):
     # the step handed to _get_timestep comes from Solver._compute_timestep
     # (C19): its contract is re-proved here
-    return ['damp', 'data', 'timestep', 'dump', 'solve', 'canary',
+    return ['damp', 'data', 'timestep', 'dump', 'solve', 'setters', 'canary',
             'dep:C19:solver']
 
 
@@ -382,6 +382,8 @@ def run_task(task, ctx):
     repo = Repo()
     m = repo.module(MOD)
     W = m.path
+    if task == 'setters':
+        return task_setters(ctx, repo, m, W)
     if task == 'damp':
         return task_damp(ctx, repo, m, W)
     if task == 'data':
@@ -770,3 +772,82 @@ def task_solve(ctx, repo, m, W):
         extra=dict(backends=['z3']))], replay=replay(('first_step',)),
         use_nf=False,
         info='a requested time inside the first step is stepped over')
+
+
+# ------------------------------------------------- setters and callbacks
+SETTERS = [('set_final_time', 'tf', 'tf'), ('set_time_step', 'dt', 'dt'),
+           ('set_max_steps', 'max_steps', 'max_steps'),
+           ('set_n_damp', 'ndamp', 'n_damp'), ('set_print_freq', 'n',
+                                               'pfreq'),
+           ('set_cfl', 'value', 'cfl'),
+           ('set_adaptive_timestep', 'value', 'adaptive_timestep'),
+           ('set_reorder_freq', 'freq', 'reorder_freq'),
+           ('set_disable_output', 'value', 'disable_output'),
+           ('set_output_at_times', 'output_at_times', 'output_at_times')]
+
+
+def task_setters(ctx, repo, m, W):
+    """What solve() reads is what the user set: every documented setter
+    stores its argument, unchanged, in the attribute the loop uses; the three
+    callback registrars append to their own list; _post_stage_callback calls
+    every registered callback once, in order, with (time, dt, stage)."""
+    obs = []
+    for meth, par, attr in SETTERS:
+        fn = m.methods('Solver')[meth]
+        v = z3.Real('value')
+        obj = SymObject('Solver', {}, 'self')
+        obj.module = m.name
+        ex = Executor(repo, m, qualname='Solver.' + meth, merge=False)
+        ex.spec_env['numpy'] = SymObject(None, dict(asarray=Native(
+            lambda e, s_, a, k, n: a[0])), 'numpy')
+        ex.spec_env['EPSILON'] = z3.Real('EPSILON')
+        try:
+            outs = ex.exec_function(fn, {'self': obj, par: v})
+            ok = len(outs) == 1 and S.same(outs[0].state.env['self'].attrs
+                                           .get(attr), v)
+        except (VCError, KeyError) as e:
+            ok = False
+        ctx.function(m, fn, 'Solver.' + meth)
+        obs.append(Obligation('setters.%s' % meth, [], z3.BoolVal(bool(ok)),
+                              W))
+    for meth, attr in (('add_post_stage_callback', 'post_stage_callbacks'),
+                       ('add_post_step_callback', 'post_step_callbacks'),
+                       ('add_pre_step_callback', 'pre_step_callbacks')):
+        fn = m.methods('Solver')[meth]
+        lists = dict(post_stage_callbacks=['s0'], post_step_callbacks=['p0'],
+                     pre_step_callbacks=['q0'])
+        obj = SymObject('Solver', {k: list(v) for k, v in lists.items()},
+                        'self')
+        obj.module = m.name
+        ex = Executor(repo, m, qualname='Solver.' + meth, merge=False)
+        try:
+            outs = ex.exec_function(fn, dict(self=obj, callback='NEW'))
+            at = outs[0].state.env['self'].attrs
+            ok = len(outs) == 1 and at[attr] == lists[attr] + ['NEW'] and \
+                all(at[k] == lists[k] for k in lists if k != attr)
+        except (VCError, KeyError):
+            ok = False
+        ctx.function(m, fn, 'Solver.' + meth)
+        obs.append(Obligation('callbacks.%s' % meth, [], z3.BoolVal(bool(ok)),
+                              W))
+    fn = m.methods('Solver')['_post_stage_callback']
+    ev = []
+    cbs = [Native(lambda e, s_, a, k, n, i=i: ev.append((i, tuple(a))))
+           for i in range(3)]
+    obj = SymObject('Solver', dict(post_stage_callbacks=cbs), 'self')
+    obj.module = m.name
+    tt, dd, sg = z3.Real('time'), z3.Real('dt'), z3.Int('stage')
+    ex = Executor(repo, m, qualname='Solver._post_stage_callback',
+                  merge=False, externals={
+                      'profile_ctx': lambda e, s_, a, k, n: None})
+    try:
+        outs = ex.exec_function(fn, dict(self=obj, time=tt, dt=dd, stage=sg))
+        ok = len(outs) == 1 and [i for i, _ in ev] == [0, 1, 2] and all(
+            len(a) == 3 and S.same(a[0], tt) and S.same(a[1], dd) and
+            S.same(a[2], sg) for _, a in ev)
+    except VCError:
+        ok = False
+    ctx.function(m, fn, 'Solver._post_stage_callback')
+    obs.append(Obligation('callbacks._post_stage_callback', [], z3.BoolVal(
+        bool(ok)), W))
+    ctx.prove('setters.solve_reads_what_the_user_set', obs)
